@@ -8,6 +8,7 @@
 package batch
 
 import (
+	"bytes"
 	"cmp"
 	"context"
 	"errors"
@@ -383,6 +384,9 @@ func cloneSub(r types.Value, k types.String, v types.Value) (types.Value, bool) 
 			newSlice = append(newSlice, vv)
 		}
 
+		// t.All() yields the members in Go map order and NewSet places members whose hashes collide by insertion
+		// order: hand them over in a fixed order so that the same substitution always gives the same Set.
+		slices.SortFunc(newSlice, func(a, b types.Value) int { return bytes.Compare(a.MarshalCedar(), b.MarshalCedar()) })
 		return types.NewSet(newSlice...), true
 	}
 	return r, false
